@@ -57,6 +57,25 @@ def coreClauses : Bool → Query → Bool
 
 def InCore (q : Query) : Bool := coreClauses false q
 
+/-- a core projection whose result is determined as a bag from a bag: no DISTINCT, SKIP, LIMIT -/
+def bagProj (p : Proj) : Bool := coreProj p && !p.distinct && p.skip.isNone && p.limit.isNone
+
+/-- core clauses with `bagProj` projections (what may follow the MATCH of an F1a query) -/
+def bagClauses : Bool → Query → Bool
+  | _, [.return_ p] => bagProj p
+  | _, .unwind _ _ :: q => bagClauses true q
+  | _, .with_ p none :: q => bagProj p && bagClauses true q
+  | true, .where_ _ :: q => bagClauses true q
+  | _, _ => false
+
+/-- the names a core tail introduces (UNWIND variables, projection aliases) -/
+def introduced : Query → List String
+  | [] => []
+  | .unwind _ x :: q => x :: introduced q
+  | .with_ p _ :: q => p.items.map (·.alias) ++ introduced q
+  | .return_ p :: q => p.items.map (·.alias) ++ introduced q
+  | _ :: q => introduced q
+
 /-- the result is determined as a bag: no SKIP / LIMIT and no `collect` from the first MATCH on.  (Which rows a
     window keeps among ties and the element order of a collected list depend on the order in which the expansions
     produce rows; the stream compares those as sequences up to ties / as counts, `Agrees` compares bags.) -/
